@@ -102,6 +102,18 @@ CHECKS = {
         "(quick: all kinds of keys via a seeded sample of 210 keys incl. multi-candidate ones and 60 BICs; thorough: all 22 753 keys and 7 769 BICs) and must equal the registry's own lists, the selection rule, invertibility and the None case.",
    note="Indexes are built by the checker's builder from the tree's build_index call arguments (build_index itself is validated in C18). Registry contents beyond the two models are covered through branch coverage only.",
    design="3/C12"),
+ "C08": dict(
+   technique="evaluation of from_components / generate by the abstract evaluator per country on position-revealing component values + exception-escape analysis on arbitrary component texts (abstract strings over the whole clean universe)",
+   text="For each of the 119 countries with positions: full-width, shorter, combined bank+branch and spaced/lower-case components must land, cleaned and zero-padded, exactly at the published ranges (zeros elsewhere, computed check digits aside); "
+        "over-long components must raise the component's own error class; with every component replaced by an arbitrary text (any characters, incl. non-ASCII) every path of IBAN.generate must end in a value or a library exception "
+        "(this found six sites raising bare ValueError/KeyError); generate goes through from_bban with validation on.",
+   note="Placement is decided on position-revealing patterns per variant, not on all strings; exceptions are decided for all characters.",
+   design="3/C08"),
+ "C09": dict(
+   technique="evaluation of compute/validate agreement on a position-covering probe family + build/read-back/rebuild evaluation per country through the abstract evaluator + return-site check of BBAN.random",
+   text="For the 19 computing countries validate(fields, compute(fields)) holds and any other digit value is rejected on every probe; for all 119 countries with positions a BBAN built by from_components, read back through the accessors and rebuilt is reproduced exactly with zero filler, and passes the BBAN-level national check; BBAN.random returns only through from_components.",
+   note="Probe family: every accepted position varied over its class from a base vector plus seeded random fills; not all field values.",
+   design="3/C09"),
 }
 NA_REASON = "check not built yet (work in progress; see DESIGN.md section 3 for the plan)"
 
